@@ -37,7 +37,7 @@ func init() {
 			}
 			return []runner.Phase{
 				{Name: "frames", Variant: "plain", Cases: nf, Run: c04frameCase, CaseTimeout: 120 * time.Second,
-					Required: []string{"frames", "kind_error", "kind_rows", "kind_prepared", "kind_event", "kind_schema_change", "kind_supported", "kind_auth", "rows_scanned", "cells_compared", "null_cells", "warnings_and_payload_together", "compressed_frames", "consumer_scan", "consumer_scanner", "consumer_mapscan", "consumer_slicemap"}},
+					Required: []string{"frames", "kind_error", "kind_rows", "kind_prepared", "kind_event", "kind_schema_change", "kind_supported", "kind_auth", "rows_scanned", "cells_compared", "null_cells", "warnings_and_payload_together", "compressed_frames", "consumer_scan", "consumer_scanner", "consumer_mapscan", "consumer_slicemap", "scanner_rows_failed_then_continued"}},
 				{Name: "sessions", Variant: "race", Cases: ns, Run: c04sessionCase, CaseTimeout: 120 * time.Second,
 					Required: []string{"sessions", "session_errors_compared", "session_rows_compared", "session_skipmeta", "session_prepared_compared", "session_trace_ids", "session_warnings", "session_payloads"}},
 			}
@@ -416,6 +416,13 @@ func (d c04dest) name(rs *c04rows) string {
 	return n
 }
 
+// c04rejecter is a destination that refuses every value.
+type c04rejecter struct{}
+
+func (c04rejecter) UnmarshalCQL(info gocql.TypeInfo, data []byte) error {
+	return fmt.Errorf("value rejected by the destination")
+}
+
 // c04consume reads all rows of it through one consumer and compares every cell.
 func c04consume(c *runner.Ctx, r *rand.Rand, it *gocql.Iter, rs *c04rows, consumer string) (problem string) {
 	defer func() {
@@ -461,6 +468,20 @@ func c04consume(c *runner.Ctx, r *rand.Rand, it *gocql.Iter, rs *c04rows, consum
 			sc = it.Scanner()
 		}
 		row := 0
+		// Scanner only: one row whose Scan fails in a column that is not the last one (a destination that rejects the
+		// value); "the row is invalidated until the next call to Next" - the rows after it are still the server's
+		failRow, failDest := -1, -1
+		if consumer == "scanner" && len(rs.vals) > 1 && r.Intn(3) == 0 {
+			var cand []int
+			for k, d := range dests {
+				if d.elem < 0 && d.t != nil && d.col < len(rs.cols)-1 {
+					cand = append(cand, k)
+				}
+			}
+			if len(cand) > 0 {
+				failRow, failDest = r.Intn(len(rs.vals)-1), cand[r.Intn(len(cand))]
+			}
+		}
 		for {
 			if !reuse {
 				ptrs = mk()
@@ -489,6 +510,15 @@ func c04consume(c *runner.Ctx, r *rand.Rand, it *gocql.Iter, rs *c04rows, consum
 			} else {
 				if !sc.Next() {
 					break
+				}
+				if row == failRow {
+					args[failDest] = c04rejecter{}
+					if err := sc.Scan(args...); err == nil {
+						return fmt.Sprintf("Scanner.Scan of row %d returned nil although the destination of column %q rejected the value", row, dests[failDest].name(rs))
+					}
+					c.Add("scanner_rows_failed_then_continued", 1)
+					row++
+					continue
 				}
 				if err := sc.Scan(args...); err != nil {
 					return fmt.Sprintf("Scanner.Scan failed on row %d: %v", row, err)
